@@ -29,6 +29,7 @@ INVARIANT ForcedExecutedOrFailed
 INVARIANT InboxRoot
 INVARIANT MessagesLand
 INVARIANT ExecutedOnce
+INVARIANT ProcessedRecorded
 INVARIANT DupRejected
 INVARIANT ReplayOk
 CHECK_DEADLOCK FALSE
